@@ -657,6 +657,68 @@ fn literal_data_matrix(acc: &mut Acc) {
     }
 }
 
+/// Runs under an ellipsis: every sub-pattern of a small set (a literal identifier, literal
+/// datum, nested list or vector inside the repeated sub-pattern) against every run of 1-3 items
+/// drawn from matching and near-miss variants: the sub-pattern is matched against EVERY item of
+/// the run, not only the first
+fn ellipsis_run_matrix(acc: &mut Acc) {
+    let mut it = Interp::must_new();
+    let p = |t: &str| crate::sexp::parse1(t);
+    // (sub-pattern, template for one item, item variants)
+    let subs: Vec<(Sx, Sx, Vec<Sx>)> = vec![
+        (p("(a lit b)"), p("(a b)"), vec![p("(1 lit 2)"), p("(1 foo 2)"), p("(1 2 lit)"), p("(1 lit)"), p("(1 \"lit\" 2)")]),
+        (p("(lit a)"), p("(a)"), vec![p("(lit 1)"), p("(foo 1)"), p("(1 lit)"), p("lit"), p("((lit) 1)")]),
+        (p("(a 1)"), p("(a)"), vec![p("(2 1)"), p("(2 2)"), p("(2 1.0)"), p("(2)"), p("(1 1 1)")]),
+        (p("#(a lit)"), p("(a)"), vec![p("#(1 lit)"), p("#(1 foo)"), p("(1 lit)"), p("#(lit 1)"), p("#(1 lit 2)")]),
+        (p("(a (lit b))"), p("(a b)"), vec![p("(1 (lit 2))"), p("(1 (foo 2))"), p("(1 lit 2)"), p("(1 (lit))"), p("((lit 2) 1)")]),
+        (p("(a #t)"), p("(a)"), vec![p("(1 #t)"), p("(1 #f)"), p("(1 1)"), p("(#t 1)"), p("(1 #t #t)")]),
+    ];
+    for (si, (sub, item_tpl, variants)) in subs.iter().enumerate() {
+        let pat = Sx::List(vec![sym("m"), sub.clone(), sym("...")]);
+        let tpl = quote(Sx::List(vec![sym("hit"), item_tpl.clone(), sym("...")]));
+        let rs = RuleSet { literals: vec!["lit".into()], rules: vec![(pat, tpl), (Sx::List(vec![sym("m"), sym("x"), sym("...")]), quote(Sx::List(vec![sym("other"), sym("x"), sym("...")])))] };
+        it.fresh_frame();
+        acc.count("ellipsis-run-rule-sets", 1);
+        let t = match install(&mut it, &rs) {
+            Ok(t) => t,
+            Err(why) => {
+                acc.mismatch(Mismatch { idx: 9_100_000_000 + si as u64, case: rs.define_text(), expected: "rule set accepted".into(), observed: why, payload: json!({"define": rs.define_text(), "use": null}) }, None);
+                continue;
+            }
+        };
+        let k = variants.len();
+        for len in 1..=3usize {
+            for code in 0..k.pow(len as u32) {
+                let mut items = vec![sym("m")];
+                let mut x = code;
+                for _ in 0..len {
+                    items.push(variants[x % k].clone());
+                    x /= k;
+                }
+                let use_ = Sx::List(items);
+                for (path, v) in [("transform", judge_direct(&t, &rs, &use_)), ("eval", judge_eval(&mut it, &rs, &use_))] {
+                    acc.evals += 1;
+                    acc.count("ellipsis-run-matrix", 1);
+                    match v {
+                        Verdict::Ok(h) => acc.distinct_hash(h),
+                        Verdict::Excluded(why) => acc.exclude(why, || format!("{}  {}", rs.define_text(), use_)),
+                        Verdict::Bad(exp, obs) => acc.mismatch(
+                            Mismatch {
+                                idx: 9_100_000_000 + (si * 10_000 + len * 1000 + code) as u64,
+                                case: format!("[ellipsis-run] {}\n{}", rs.define_text(), use_),
+                                expected: exp,
+                                observed: format!("[{}] {}", path, obs),
+                                payload: json!({"define": rs.define_text(), "use": use_.to_string(), "literals": rs.literals, "rules": rs.rules.iter().map(|(p, t)| vec![p.to_string(), t.to_string()]).collect::<Vec<_>>()}),
+                            },
+                            None,
+                        ),
+                    }
+                }
+            }
+        }
+    }
+}
+
 pub fn run(ctx: &Ctx) -> i32 {
     let pl = plan(ctx.thorough());
     let total = std::env::var("C04_LIMIT").ok().and_then(|s| s.parse().ok()).unwrap_or(pl.total());
@@ -731,6 +793,7 @@ pub fn run(ctx: &Ctx) -> i32 {
     );
     let mut acc = acc;
     literal_data_matrix(&mut acc);
+    ellipsis_run_matrix(&mut acc);
     report::finish(
         acc,
         RunInfo {
@@ -738,7 +801,7 @@ pub fn run(ctx: &Ctx) -> i32 {
             tier: ctx.tier_name(),
             seed: ctx.seed,
             exhaustive: true,
-            rule: "every argument pattern (variables, _, a literal identifier, literal data 1 and #t, sub-lists and vectors of 1-3 elements nested <= 2, optional final ellipsis, no ellipsis under an ellipsis) up to the node bound, with every canonical template (flat dump, structure-preserving copy, vector, list / vector / vector-in-list sub-template under ellipsis, duplicated ellipsis variable) and literal sets () and (lit); all ordered pairs (thorough: triples) of small rules; against every use (0-4 arguments over 1 2 #t \"s\" lit foo with lists and vectors nested <= 2) up to the node bound; plus the literal-data matrix: each of 20 literal data (exact / inexact / ratio numbers of equal value, booleans, strings, characters, the empty list) as a pattern element at top level, in a sub-list, in a vector and twice in a list, against each of the 20 as the use; distinct = distinct expansions".into(),
+            rule: "every argument pattern (variables, _, a literal identifier, literal data 1 and #t, sub-lists and vectors of 1-3 elements nested <= 2, optional final ellipsis, no ellipsis under an ellipsis) up to the node bound, with every canonical template (flat dump, structure-preserving copy, vector, list / vector / vector-in-list sub-template under ellipsis, duplicated ellipsis variable) and literal sets () and (lit); all ordered pairs (thorough: triples) of small rules; against every use (0-4 arguments over 1 2 #t \"s\" lit foo with lists and vectors nested <= 2) up to the node bound; plus the literal-data matrix: each of 20 literal data (exact / inexact / ratio numbers of equal value, booleans, strings, characters, the empty list) as a pattern element at top level, in a sub-list, in a vector and twice in a list, against each of the 20 as the use; the ellipsis-run matrix: 6 repeated sub-patterns (with a literal identifier, a literal datum, a nested list, a vector) against every run of 1-3 items over 5 matching / near-miss variants each; distinct = distinct expansions".into(),
             bounds: pl.descr.clone(),
             assumptions: vec!["refsyn written from R7RS 4.3.2 for the supported class; (rule set, use) pairs on which 'zero or more' and 'one or more' ellipsis semantics differ are outside the class and only counted".into()],
             wall_s: ctx.elapsed(),
